@@ -23,6 +23,14 @@ CLAIMED = {
                      "(path-universal dataflow); delimiter choice has a single source. Round-trip equality is not decided.",
                 note=TB + "; ICU u_fprintf/u_fputc return conventions (count written / character written)",
                 tech="table agreement + emission/accounting typestate dataflow + who-may-call on the call graph"),
+    "C04": dict(level="other", ref="5 C04",
+                text="The schema and statement layer the data model rests on: SQLite's own parser run on the embedded DDL and on all "
+                     "embedded statements (compiling program text in an empty in-memory database, not running cif_api) yields keys, "
+                     "uniqueness, cascades, triggers; every statement type-checks; every C bind/column index is in range; key "
+                     "parameters are bound on every path to each step (dataflow); trigger messages equal the C strings compared with "
+                     "sqlite3_errmsg. Results of arbitrary API histories are not decided.",
+                note=TB + "; SQLite (python3 sqlite3 module) as parser of the embedded SQL; a light tokenizer maps ?-parameters to columns",
+                tech="static analysis of embedded SQL + bind/column site join + must-bind dataflow"),
     "C05": dict(level="proof", ref="5 C05",
                 text="Path-universal transaction typestate over the CFG of every function that reaches a transaction event or a "
                      "modifying statement: depth balanced on every exit, no failure return after a successful commit, no success "
@@ -37,6 +45,13 @@ CLAIMED = {
                      "of the property; once-only delivery of packets depends on SQL row grouping at run time and is not decided.",
                 note=TB + "; SQLite transaction/savepoint semantics",
                 tech="typestate dataflow + dominance / must-pass-through queries on clang CFGs"),
+    "C07": dict(level="other", ref="5 C07",
+                text="Agreement of the two hand-written codecs: each value field is read (GET_VALUE_PROPS) from the column it is bound to "
+                     "(SET_VALUE_PROPS) for every writer x reader statement, resolved through the statements' own column lists; "
+                     "serialise/deserialise pairs move the same width sequences and nest the same codecs; table flags agree; "
+                     "SQLITE_STATIC binds outlive the step; buffer primitives clamp. Equality of round-tripped values is not decided.",
+                note=TB + "; SQLite as parser of the embedded SQL",
+                tech="writer/reader table extraction from macro expansions in the AST + agreement checks"),
     "C11": dict(level="other", ref="5 C11",
                 text="Narrow structural claim: the dialect-selecting magic code agrees in all places where it is emitted or compared "
                      "(incl. the common 7-character prefix), and CIF_WRONG_ENCODING / the BOM CIF_DISALLOWED_CHAR / SET_V1 sit exactly "
